@@ -275,9 +275,15 @@ def tree_frame(exc):
     frames = tb.extract_tb(exc.__traceback__)
     if not frames:
         return None
-    last = frames[-1]
-    if os.path.abspath(last.filename).startswith(env.SRC + os.sep):
-        return "%s:%s" % (os.path.relpath(last.filename, env.SRC), last.name)
+    # innermost frame that belongs to the tree under test or to the harness decides: code the tree evaluates from
+    # strings (its formula lambdas, file "<string>") and library code it calls (numpy) sit below a tree frame
+    here = os.path.dirname(os.path.abspath(__file__)) + os.sep
+    for fr in reversed(frames):
+        fn = os.path.abspath(fr.filename) if not fr.filename.startswith("<") else fr.filename
+        if fn.startswith(env.SRC + os.sep):
+            return "%s:%s" % (os.path.relpath(fn, env.SRC), fr.name)
+        if fn.startswith(here):
+            return None
     return None
 
 
